@@ -8,4 +8,6 @@ import (
 )
 
 // VerifWitnessAdapter exposes the adapter Main puts between the witness and its feeders / bastion / distributor.
-func VerifWitnessAdapter(w *witness.Witness) feeder.Witness { return witnessAdapter{w: w} }
+func VerifWitnessAdapter(w *witness.Witness) feeder.Witness {
+	return &witnessAdapter{w: w} // the pointer's method set covers value and pointer receivers
+}
